@@ -7,6 +7,7 @@ pub fn register(v: &mut Vec<(&'static str, crate::Harness)>) {
     v.push(("h_c08_index_round_trip", h_c08_index_round_trip));
     v.push(("h_c08_interning", h_c08_interning));
     v.push(("h_c08_builtins_and_parse", h_c08_builtins_and_parse));
+    v.push(("h_c08_html5", h_c08_html5));
 }
 
 /// the lemma that carries "however many registrations": an id is made from the
@@ -117,4 +118,36 @@ pub fn h_c08_builtins_and_parse() {
         }
         Err(_) => sym::check("well-formed-document-accepted", false),
     }
+}
+
+/// html5() registers several hundred names: earlier ids keep their meaning and the
+/// HTML names compare equal to names registered directly (concrete strings; the
+/// symbolic dimension of interning is h_c08_interning)
+pub fn h_c08_html5() {
+    let mut xot = Xot::new();
+    let ns = xot.add_namespace("urn:1");
+    let xh = xot.add_namespace("http://www.w3.org/1999/xhtml");
+    let names = ["br", "BR", "Br", "zz", "a", "script"];
+    let mut before = Vec::new();
+    for n in names.iter() {
+        before.push((xot.add_name(n), xot.add_name_ns(n, ns), xot.add_name_ns(n, xh)));
+    }
+    let p = xot.add_prefix("h");
+    {
+        let _h = xot.html5();
+    }
+    let none = xot.no_namespace();
+    for (i, n) in names.iter().enumerate() {
+        let (a, b, c) = before[i];
+        sym::check("ids-keep-their-meaning-after-html5", xot.name_ns_str(a) == (*n, "") && xot.name_ns_str(b) == (*n, "urn:1") && xot.namespace_for_name(c) == xh && xot.local_name_str(c) == *n);
+        sym::check("re-registration-after-html5-returns-same-id", xot.add_name_ns(n, none) == a && xot.add_name_ns(n, ns) == b && xot.add_name_ns(n, xh) == c);
+        sym::check("read-only-lookup-after-html5", xot.name(n) == Some(a) && xot.name_ns(n, ns) == Some(b));
+    }
+    sym::check("namespace-and-prefix-ids-keep-their-meaning", xot.namespace_str(ns) == "urn:1" && xot.namespace_str(xh) == "http://www.w3.org/1999/xhtml" && xot.prefix_str(p) == "h" && xot.add_namespace("urn:1") == ns);
+    // a second html5() registers nothing new under a different id
+    let hr = xot.name("hr");
+    {
+        let _h = xot.html5();
+    }
+    sym::check("html-names-are-stable-across-html5-calls", hr.is_some() && xot.name("hr") == hr && xot.add_name("hr") == hr.unwrap());
 }
